@@ -95,6 +95,9 @@ def main(argv=None):
 
     t0 = time.time()
     try:
+        from symx import hook
+
+        hook.install()  # the scheduler process only enumerates obligations; workers inherit the hooked import system
         from props import load_obligations
         import pandas  # noqa: F401  (imported before forking so that workers share it)
         import z3  # noqa: F401
